@@ -17,15 +17,29 @@ use tensor_store::{
     EntityId, ScalarValue, SparseVector, TensorData, TensorStore, TensorValue, WalConfig, WalEntry,
 };
 
-const K: u64 = 10;
+const K: u64 = 24;
 
+/// key names: by class k % 5 (emb: / user: / node: / table: / _cache:), plus keys that only LOOK like
+/// a class: bare class names, a class prefix without the colon, the empty key -- all of them are
+/// ordinary metadata keys (their ids have k % 5 in 1..3)
 fn kname(k: u64) -> String {
-    match k % 5 {
-        0 => format!("emb:k{k}"),
-        1 => format!("user:{k}"),
-        2 => format!("node:{k}"),
-        3 => format!("table:{k}"),
-        _ => format!("_cache:{k}"),
+    match k {
+        11 => "_cache".into(),
+        12 => "emb".into(),
+        13 => "node".into(),
+        16 => "edge".into(),
+        17 => "table".into(),
+        18 => "_blob".into(),
+        21 => "_cachex".into(),
+        22 => "embk".into(),
+        23 => String::new(),
+        _ => match k % 5 {
+            0 => format!("emb:k{k}"),
+            1 => format!("user:{k}"),
+            2 => format!("node:{k}"),
+            3 => format!("table:{k}"),
+            _ => format!("_cache:{k}"),
+        },
     }
 }
 fn is_cache(k: u64) -> bool {
@@ -60,10 +74,14 @@ fn base_fields(id: u64) -> Vec<(&'static str, TensorValue)> {
         9 => vec![("ptrs", T::Pointers(vec!["node:2".into(), "emb:k0".into()]))],
         10 => vec![("sp", T::Sparse(SparseVector::from_dense(&[0.0, 1.5, 0.0, 0.0, -2.0])))],
         11 => vec![("vec", T::Vector(vec![9.0, 8.0, 7.0]))],
-        _ => vec![("f", T::Scalar(S::Int(i64::MIN))), ("g", T::Scalar(S::String(String::new())))],
+        12 => vec![("f", T::Scalar(S::Int(i64::MIN))), ("g", T::Scalar(S::String(String::new())))],
+        // large values (records above the log writer's 8 KiB buffer); only drawn on request
+        13 => vec![("raw", T::Scalar(S::Bytes((0..8400u32).map(|i| (i.wrapping_mul(2654435761) >> 13) as u8).collect())))],
+        _ => vec![("raw", T::Scalar(S::Bytes((0..8700u32).map(|i| (i.wrapping_mul(40503) >> 7) as u8).collect())))],
     }
 }
 const NBASE: u64 = 13;
+const NBASE_ALL: u64 = 15;
 
 #[derive(Clone, Copy, PartialEq, Eq, Hash, PartialOrd, Ord, Debug)]
 struct Val {
@@ -119,12 +137,20 @@ fn canon(d: &TensorData) -> Val {
         None => None,
     };
     let mut base = 999;
-    for id in 0..NBASE {
-        let mut t = TensorData::new();
-        for (f, x) in base_fields(id) {
-            t.set(f, x);
-        }
-        if t == rest {
+    static BASES: std::sync::OnceLock<Vec<TensorData>> = std::sync::OnceLock::new();
+    let bases = BASES.get_or_init(|| {
+        (0..NBASE_ALL)
+            .map(|id| {
+                let mut t = TensorData::new();
+                for (f, x) in base_fields(id) {
+                    t.set(f, x);
+                }
+                t
+            })
+            .collect()
+    });
+    for id in 0..NBASE_ALL {
+        if bases[id as usize] == rest {
             base = id;
             break;
         }
@@ -247,7 +273,7 @@ struct OpsOut {
 }
 /// run calls on the live store; observe after each; `ends` = logical end offset of each call's
 /// records, `acks` = that offset once an fsync covered it (NEVER otherwise)
-fn run_ops(store: &TensorStore, wal: &Path, vals: &mut Values, ops: &[Op], dist: &mut Dist, snap_for_fail: &Path) -> OpsOut {
+fn run_ops(store: &TensorStore, wal: &Path, vals: &mut Values, ops: &[Op], dist: &mut Dist, snap_for_fail: &Path, mode: tensor_store::SyncMode) -> OpsOut {
     let mut results = vec![];
     let mut lives: Vec<Obs> = vec![observe(store)];
     let mut ends: Vec<u64> = vec![];
@@ -259,8 +285,10 @@ fn run_ops(store: &TensorStore, wal: &Path, vals: &mut Values, ops: &[Op], dist:
             let _ = store.sync();
             let on_disk = fs::metadata(wal).map(|m| m.len()).unwrap_or(0);
             for (e, a) in ends.iter().zip(acks.iter_mut()) {
-                if *e <= on_disk {
-                    *a = *e;
+                // acknowledged from the moment this fsync completed: crash images shorter than
+                // what it made durable predate it
+                if *e <= on_disk && *a == NEVER {
+                    *a = on_disk;
                 }
             }
             continue;
@@ -303,11 +331,24 @@ fn run_ops(store: &TensorStore, wal: &Path, vals: &mut Values, ops: &[Op], dist:
         // logical end of this call's records (includes bytes still in the writer's buffer)
         ends.push(store.wal_status().map_or(0, |st| st.size_bytes));
         acks.push(NEVER);
-        // whatever has reached the file by now was fsynced (Immediate / full batch): acknowledged
-        let on_disk = fs::metadata(wal).map(|m| m.len()).unwrap_or(0);
-        for (e, a) in ends.iter().zip(acks.iter_mut()) {
-            if *e <= on_disk {
-                *a = *e;
+        // acknowledged = covered by an fsync.  Immediate: every call.  Batched: the log grows on
+        // disk only when a full batch is synced -- except that a record larger than the writer's
+        // 8 KiB buffer is passed through (flushed, NOT fsynced), which acknowledges nothing.
+        // Manual: explicit sync() only (handled above).
+        let large = matches!(op, Op::Put(_, val) if val.base >= NBASE);
+        let fsynced = match mode {
+            tensor_store::SyncMode::Immediate => true,
+            tensor_store::SyncMode::Batched { .. } => !large,
+            tensor_store::SyncMode::Manual => false,
+        };
+        if fsynced {
+            let on_disk = fs::metadata(wal).map(|m| m.len()).unwrap_or(0);
+            for (e, a) in ends.iter().zip(acks.iter_mut()) {
+                // acknowledged from the moment this fsync completed: crash images shorter than
+                // what it made durable predate it
+                if *e <= on_disk && *a == NEVER {
+                    *a = on_disk;
+                }
             }
         }
     }
@@ -330,10 +371,29 @@ fn run_generation(
     snapshot: Option<&Path>,
     cfg: &WalConfig,
 ) -> (GenOut, Vec<u8>, u64) {
+    run_generation_seg(store, wal, scratch, vals, ops, chosen_pick, dist, thorough, snapshot, cfg, &[])
+}
+/// `segments`: rotated log files (n, bytes) that lie next to the live log; every crash image gets
+/// copies of them under the matching names
+#[allow(clippy::too_many_arguments)]
+fn run_generation_seg(
+    store: TensorStore,
+    wal: &Path,
+    scratch: &Path,
+    vals: &mut Values,
+    ops: &[Op],
+    chosen_pick: &mut dyn FnMut(u64, u64, &[u64]) -> u64,
+    dist: &mut Dist,
+    thorough: bool,
+    snapshot: Option<&Path>,
+    cfg: &WalConfig,
+    segments: &[(usize, Vec<u8>)],
+) -> (GenOut, Vec<u8>, u64) {
     let cfg = cfg.clone();
     let base = fs::metadata(wal).map(|m| m.len()).unwrap_or(0);
     let fail_snap = snapshot.map_or_else(|| wal.with_extension("failsnap"), |p| p.to_path_buf());
-    let OpsOut { results, lives, ends, acks, model_ops } = run_ops(&store, wal, vals, ops, dist, &fail_snap);
+    let OpsOut { results, lives, ends, acks, model_ops } = run_ops(&store, wal, vals, ops, dist, &fail_snap, cfg.sync_mode);
+    let all_calls = ops;
     let ops = &model_ops[..];
     drop(store);
     let fbytes = fs::read(wal).unwrap_or_default();
@@ -342,7 +402,7 @@ fn run_generation(
     // are independent, so they run on a few threads (results are merged in offset order)
     let t_rec = std::time::Instant::now();
     // every byte offset; in the quick tier the interior of LARGE records (384-dim vectors,
-    // > 200 bytes) is visited with stride 7 (all offsets within 24 bytes of a record edge are
+    // > 200 bytes) is visited with stride 13 (all offsets within 24 bytes of a record edge are
     // always visited); the thorough tier visits every byte of everything
     let mut interior = vec![false; fbytes.len() + 1];
     if !thorough {
@@ -355,7 +415,7 @@ fn run_generation(
             }
             if l > 200 {
                 for (i, x) in interior.iter_mut().enumerate().take(end - 24).skip(pos + 24) {
-                    *x = i % 7 != 0;
+                    *x = i % 13 != 0;
                 }
             }
             pos = end;
@@ -373,6 +433,14 @@ fn run_generation(
             let path = scratch.with_extension(format!("t{ti}"));
             hs.push(sc.spawn(move || {
                 let mut out = vec![];
+                let seg_path = |n: usize| {
+                    let mut p = path.as_os_str().to_owned();
+                    p.push(format!(".{n}"));
+                    PathBuf::from(p)
+                };
+                for (n, bs) in segments {
+                    fs::write(seg_path(*n), bs).unwrap();
+                }
                 for &k in part {
                     fs::write(&path, &fb[..k as usize]).unwrap();
                     let ro = match guarded(std::panic::AssertUnwindSafe(|| TensorStore::recover(&path, &cfg, snapshot))) {
@@ -382,6 +450,9 @@ fn run_generation(
                     out.push((k, ro));
                 }
                 let _ = fs::remove_file(&path);
+                for (n, _) in segments {
+                    let _ = fs::remove_file(seg_path(*n));
+                }
                 out
             }));
         }
@@ -431,8 +502,11 @@ fn run_generation(
         list(runs.iter().map(|(a, z, st, o)| format!("({}, {}, {}, {})", a, z, st, opt(o.as_ref().map(obs_coq))))),
         chosen
     );
+    // `ops` are the calls the model sees; explicit sync calls and checkpoint attempts that fail
+    // while writing the snapshot are listed too when there are any
+    let extra = if all_calls.len() != ops.len() { format!(" all_calls={all_calls:?}") } else { String::new() };
     let human = format!(
-        "sync={:?} ops={:?} results={:?} base={} len={} chosen_crash={} final_live={}",
+        "sync={:?} ops={:?}{extra} results={:?} base={} len={} chosen_crash={} final_live={}",
         cfg.sync_mode,
         ops,
         results,
@@ -548,7 +622,7 @@ fn run_ckpt_case(cx: &mut Ctx, wck: &mut CaseWriter, label: &str, pre: Option<Ve
     let mut old_snap: Option<Vec<u8>> = None;
     let pre_model: Option<Vec<Op>> = pre.as_ref().map(|p| p.iter().filter(|o| matches!(o, Op::Put(..) | Op::Del(..))).cloned().collect());
     if let Some(p0) = &pre {
-        let _ = run_ops(&store, &wal, &mut cx.vals, p0, &mut cx.dist, &snap);
+        let _ = run_ops(&store, &wal, &mut cx.vals, p0, &mut cx.dist, &snap, cfg.sync_mode);
         let _ = store.sync();
         if store.checkpoint(&snap).is_err() {
             cx.dist.hit("ckpt.first_checkpoint_failed");
@@ -556,7 +630,7 @@ fn run_ckpt_case(cx: &mut Ctx, wck: &mut CaseWriter, label: &str, pre: Option<Ve
         }
         old_snap = fs::read(&snap).ok();
     }
-    let o1 = run_ops(&store, &wal, &mut cx.vals, &ops1, &mut cx.dist, &snap);
+    let o1 = run_ops(&store, &wal, &mut cx.vals, &ops1, &mut cx.dist, &snap, cfg.sync_mode);
     let live = o1.lives.last().unwrap().clone();
     let wdisk = fs::read(&wal).unwrap_or_default();
     // images: (point name, log bytes, snapshot bytes if the file exists)
@@ -729,7 +803,7 @@ fn run_rot_case(cx: &mut Ctx, wrot: &mut CaseWriter, label: &str, ops1: Vec<Op>,
     let all_ops: Vec<Op> = ops1.iter().chain(ops2.iter()).cloned().collect();
     let tab = table(&mut cx.vals, &all_ops, all_ops.len() as u64 + 1);
     let store = TensorStore::open_durable(&wal, cfg.clone()).expect("open_durable");
-    let o1 = run_ops(&store, &wal, &mut cx.vals, &ops1, &mut cx.dist, &snap);
+    let o1 = run_ops(&store, &wal, &mut cx.vals, &ops1, &mut cx.dist, &snap, cfg.sync_mode);
     let live = o1.lives.last().unwrap().clone();
     let wlen = fs::metadata(&wal).map(|m| m.len()).unwrap_or(0);
     if !rotated(1).exists() {
@@ -745,9 +819,11 @@ fn run_rot_case(cx: &mut Ctx, wrot: &mut CaseWriter, label: &str, ops1: Vec<Op>,
     let rot_before = (1..4).filter(|i| rotated(*i).exists()).count();
     let mut pick = pick_end();
     let thorough = cx.args.thorough();
-    let (g2, fb, _ch) = run_generation(store, &wal, &scratch, &mut cx.vals, &ops2, &mut *pick, &mut cx.dist, thorough, Some(&snap), &cfg);
+    let segments: Vec<(usize, Vec<u8>)> = (1..4).filter_map(|i| fs::read(rotated(i)).ok().map(|bs| (i, bs))).collect();
+    let (g2, fb, _ch) = run_generation_seg(store, &wal, &scratch, &mut cx.vals, &ops2, &mut *pick, &mut cx.dist, thorough, Some(&snap), &cfg, &segments);
     let rot_after = (1..4).filter(|i| rotated(*i).exists()).count();
-    if rot_after != rot_before || fs::read(rotated(1)).map(|b_| b_.len()).unwrap_or(0) as u64 != wlen && false {
+    let segments_after: Vec<(usize, Vec<u8>)> = (1..4).filter_map(|i| fs::read(rotated(i)).ok().map(|bs| (i, bs))).collect();
+    if rot_after != rot_before || segments_after != segments {
         // the calls after the checkpoint rotated the log again: back in the known class, not this stream
         cx.dist.hit("rot.rotated_again_after_checkpoint");
         cleanup(true);
@@ -835,8 +911,33 @@ fn main() {
         vec![pick_end()],
     );
 
+    // keys that only LOOK like a class (bare class names, prefix without colon, empty key): plain
+    // metadata keys, durable like any other
+    run_case(
+        &mut cx,
+        "corpus look-alike keys",
+        vec![
+            vec![Op::Put(11, v(1, None)), Op::Put(12, v(2, Some(1))), Op::Put(23, v(3, None)), Op::Put(21, v(4, None)), Op::Put(13, v(5, None)), Op::Del(12), Op::Put(17, v(6, None))],
+            vec![Op::Del(11), Op::Put(22, v(7, None)), Op::Put(16, v(8, None)), Op::Put(18, v(9, None)), Op::Del(23)],
+        ],
+        vec![pick_end(), pick_end()],
+    );
+    // small and large (> 8 KiB, above the writer's buffer) records mixed under manual / batched sync
+    for (lbl, c) in [
+        ("manual", WalConfig { sync_mode: tensor_store::SyncMode::Manual, ..WalConfig::default() }),
+        ("batched-3", WalConfig { sync_mode: tensor_store::SyncMode::Batched { max_entries: 3 }, ..WalConfig::default() }),
+    ] {
+        run_case_cfg(
+            &mut cx,
+            &format!("corpus small-then-large-record ({lbl})"),
+            vec![vec![Op::Put(1, v(1, None)), Op::Put(1, v(13, None)), Op::Sync, Op::Put(6, v(2, None)), Op::Put(2, v(14, None)), Op::Put(6, v(1, None))]],
+            vec![pick_end()],
+            c,
+        );
+    }
+
     // ---------------- seeded cases ----------------
-    let ncases = args.budget(36, 500);
+    let ncases = args.budget(24, 500);
     for ci in 0..ncases {
         let big = ci % 12 == 11; // a few cases exercise the 384-dim embedding slab
         let ngen = if big { rng.range(1, 2) } else { rng.range(1, 3) } as usize;
@@ -864,6 +965,21 @@ fn main() {
             _ => WalConfig::default(),
         };
         cx.dist.hit(&format!("case.sync_mode.{}", match mode { 7 | 8 => "manual", 9 => "batched", _ => "immediate" }));
+        if mode >= 7 && rng.chance(1, 2) {
+            // one or two large values among the small ones
+            let mut budget = rng.range(1, 2);
+            for g in gens.iter_mut() {
+                for o in g.iter_mut() {
+                    if budget > 0 && rng.chance(1, 3) {
+                        if let Op::Put(_, val) = o {
+                            *val = Val { base: rng.range(13, 14), emb: None };
+                            budget -= 1;
+                        }
+                    }
+                }
+            }
+            cx.dist.hit("case.sync_mode.with_large_records");
+        }
         if mode >= 7 {
             for g in gens.iter_mut() {
                 let mut i = 0;
@@ -894,6 +1010,16 @@ fn main() {
         None,
         vec![Op::Put(1, v(1, None)), Op::Put(0, v(2, Some(1))), Op::Del(1), Op::Put(6, v(3, None)), Op::Del(0), Op::Put(0, v(4, Some(2)))],
         vec![Op::Put(2, v(5, None)), Op::Del(6), Op::Put(0, v(6, None))],
+        WalConfig::default(),
+    );
+    // look-alike keys around a checkpoint: put "_cache", checkpoint, delete it, crash
+    run_ckpt_case(
+        &mut cx,
+        &mut wck,
+        "corpus checkpoint look-alike keys",
+        None,
+        vec![Op::Put(11, v(1, None)), Op::Put(12, v(2, None)), Op::Put(23, v(3, None))],
+        vec![Op::Del(11), Op::Put(21, v(4, None)), Op::Del(23)],
         WalConfig::default(),
     );
     // a second checkpoint (an older snapshot is in place while the new one is being taken)
@@ -960,7 +1086,7 @@ fn main() {
         vec![vec![Op::Put(1, v(1, None)), Op::Put(6, v(2, None)), Op::CkptFail(0), Op::Put(2, v(3, None)), Op::CkptFail(1), Op::Del(1)], vec![Op::Put(1, v(4, None))]],
         vec![pick_end(), pick_end()],
     );
-    let nck = args.budget(10, 120);
+    let nck = args.budget(7, 120);
     for ci in 0..nck {
         let big = ci % 10 == 9;
         let mut keys: Vec<u64> = (0..K).collect();
@@ -1018,6 +1144,14 @@ fn main() {
         vec![Op::Put(1, v(1, None)), Op::Put(6, v(2, None)), Op::Put(2, v(3, None)), Op::Put(7, v(4, None)), Op::Put(3, v(5, None)), Op::Put(8, v(1, None)), Op::Del(2)],
         vec![Op::Put(1, v(2, None)), Op::Del(6), Op::Put(2, v(6, None))],
         110,
+    );
+    run_rot_case(
+        &mut cx,
+        &mut wrot,
+        "corpus rotate-delete-overwrite-checkpoint-write",
+        vec![Op::Put(1, v(1, None)), Op::Put(6, v(2, None)), Op::Put(2, v(3, None)), Op::Put(7, v(4, None)), Op::Put(3, v(5, None)), Op::Del(1), Op::Put(6, v(5, None)), Op::Del(7)],
+        vec![Op::Put(8, v(1, None)), Op::Put(2, v(6, None))],
+        100,
     );
     let nrot = args.budget(6, 80);
     for ci in 0..nrot {
@@ -1112,7 +1246,7 @@ fn main() {
             "kinds": [cx.w.summary(), wck.summary(), wrot.summary()],
             "distribution": cx.dist.json(),
             "hits": cx.hits.0,
-            "nontrivial_rule": "a case with at least 2 durable calls; every case recovers at EVERY byte offset of what each generation appended (quick tier: stride 7 inside the payload of records > 200 bytes, every byte within 24 bytes of each record edge)",
+            "nontrivial_rule": "a case with at least 2 durable calls; every case recovers at EVERY byte offset of what each generation appended (quick tier: stride 13 inside the payload of records > 200 bytes, every byte within 24 bytes of each record edge)",
         }),
     );
 }
